@@ -25,6 +25,9 @@ pub struct Cfg {
     /// items offered as text (`&str`) instead of `u64`
     #[serde(default)]
     pub text: bool,
+    /// items offered as 4-tuples of u64
+    #[serde(default)]
+    pub tuple: bool,
 }
 
 #[derive(Clone, Serialize, Deserialize)]
@@ -55,6 +58,12 @@ pub struct BloomModel {
     pub members: BTreeSet<u64>,
     /// items are offered to the filter as `&str` (text derived from the id) instead of as `u64`
     pub text: bool,
+    /// items are offered as a 4-tuple of u64 (four `write_u64` calls, 32 bytes: one XXH64 stripe)
+    pub tuple: bool,
+}
+
+pub fn item_tuple(id: u64) -> (u64, u64, u64, u64) {
+    (id, id.wrapping_mul(0x9E37_79B9_7F4A_7C15), !id, id.rotate_left(9))
 }
 
 /// Text form of an item id: 0..=96 lower-case letters (lengths around 31, 63, 95 put the
@@ -74,10 +83,18 @@ pub fn item_text(id: u64) -> String {
 
 impl BloomModel {
     pub fn new(bits: u64, hashes: u16, seed: u64) -> Self {
-        BloomModel { words: vec![0; bits.div_ceil(64) as usize], hashes, seed, members: BTreeSet::new(), text: false }
+        BloomModel { words: vec![0; bits.div_ceil(64) as usize], hashes, seed, members: BTreeSet::new(), text: false, tuple: false }
     }
     /// the byte sequence the item's `Hash` implementation feeds the hasher
     fn hashed_bytes(&self, item: u64) -> Vec<u8> {
+        if self.tuple {
+            let (a, b, c, d) = item_tuple(item);
+            let mut v = a.to_le_bytes().to_vec();
+            v.extend_from_slice(&b.to_le_bytes());
+            v.extend_from_slice(&c.to_le_bytes());
+            v.extend_from_slice(&d.to_le_bytes());
+            return v;
+        }
         if self.text {
             // `impl Hash for str`: the bytes, then 0xff
             let mut b = item_text(item).into_bytes();
@@ -134,13 +151,25 @@ struct Node {
 
 impl Node {
     fn lib_insert(&mut self, item: u64) {
-        if self.model.text { self.f.insert(item_text(item).as_str()) } else { self.f.insert(item) }
+        if self.model.tuple {
+            self.f.insert(item_tuple(item))
+        } else if self.model.text {
+            self.f.insert(item_text(item).as_str())
+        } else {
+            self.f.insert(item)
+        }
     }
     fn lib_contains(&self, item: u64) -> bool {
-        contains_item(&self.f, self.model.text, item)
+        if self.model.tuple { self.f.contains(&item_tuple(item)) } else { contains_item(&self.f, self.model.text, item) }
     }
     fn lib_contains_and_insert(&mut self, item: u64) -> bool {
-        if self.model.text { self.f.contains_and_insert(&item_text(item).as_str()) } else { self.f.contains_and_insert(&item) }
+        if self.model.tuple {
+            self.f.contains_and_insert(&item_tuple(item))
+        } else if self.model.text {
+            self.f.contains_and_insert(&item_text(item).as_str())
+        } else {
+            self.f.contains_and_insert(&item)
+        }
     }
 }
 
@@ -195,7 +224,7 @@ fn check_node(name: &str, nd: &Node, bits: u64, probes: &[u64], deep: bool, st: 
         Err(e) => return Err(Violation::new("C09.valid_image_rejected", format!("{name}: own image rejected: {e}"))),
     };
     for &it in nd.model.members.iter().take(50) {
-        check!(contains_item(&back, nd.model.text, it), "C09.false_negative_after_serialization", "{name}: item {it} lost by serialize/deserialize");
+        check!(if nd.model.tuple { back.contains(&item_tuple(it)) } else { contains_item(&back, nd.model.text, it) }, "C09.false_negative_after_serialization", "{name}: item {it} lost by serialize/deserialize");
     }
     check!(back.bits_used() == pc, "C09.bits_used", "{name}: bits_used {} after round trip, array holds {pc}", back.bits_used());
     Ok(())
@@ -217,7 +246,7 @@ impl Scenario for C09 {
         if rng.chance(1, 4000) {
             // spot run: two filters of 2^32 bits (512 MiB each; valid, the documented maximum is
             // larger), saturated by invert(): set-bit counts beyond u32::MAX in union / intersect
-            return (Cfg { bits: 1 << 32, hashes: 1, seed: rng.next_u64(), nodes: 2, text: false }, vec![]);
+            return (Cfg { bits: 1 << 32, hashes: 1, seed: rng.next_u64(), nodes: 2, text: false, tuple: false }, vec![]);
         }
         let bits = match rng.below(8) {
             0 => 1,
@@ -286,7 +315,8 @@ impl Scenario for C09 {
         }
         // one run in three offers its items as text
         let text = rng.chance(1, 3);
-        (Cfg { bits, hashes, seed, nodes, text }, acts)
+        let tuple = !text && rng.chance(1, 3);
+        (Cfg { bits, hashes, seed, nodes, text, tuple }, acts)
     }
 
     fn execute(&self, cfg: &Cfg, acts: &[Act], st: &mut RunStats) -> Result<(), Violation> {
@@ -319,6 +349,7 @@ impl Scenario for C09 {
             .map(|_| {
                 let mut model = BloomModel::new(bits, hashes, cfg.seed);
                 model.text = cfg.text;
+                model.tuple = cfg.tuple;
                 Node { f: mk(), model }
             })
             .collect();
@@ -445,12 +476,14 @@ impl Scenario for C09 {
                     lib_call("BloomFilter::reset", || nd.f.reset())?;
                     nd.model = BloomModel::new(bits, hashes, cfg.seed);
                     nd.model.text = cfg.text;
+                    nd.model.tuple = cfg.tuple;
                     st.fault("reset");
                     check_node("node(after reset)", nd, bits, &probes, true, st)?;
                 }
                 Act::ForeignDirty { to, items } => {
                     let mut m = BloomModel::new(bits, hashes, cfg.seed);
                     m.text = cfg.text;
+                    m.tuple = cfg.tuple;
                     for &it in items {
                         m.insert(it);
                     }
